@@ -224,3 +224,17 @@ def cases_of(rng, n_random, t):
         for b in DEFS:
             if a != b:
                 yield ("duplicate-id:%s:%s" % (a, b), "error", *R({}, None, {b: ids[a]}))
+
+
+def zero_spellings():
+    """texts that must be REJECTED: in an all-unnamed body, one definition that is not the first unnamed value is written with an ID that reads as zero
+    (`%0`, `%00`, `%000`; a label `00:`): `AssignIDs` cannot tell an explicit 0 from "not numbered yet", so the parser checks explicit zeros by itself.
+    Yields (kind, text)."""
+    for t in (MAIN, EH):
+        ids = numbering({}, t)
+        for d in t.DEFS:
+            if ids[d] == "0":
+                continue
+            for sp in ("0", "00", "000"):
+                text, _ = render({}, None, {d: sp}, t=t)
+                yield ("%smisplaced-zero:%s:%s" % (t.tag, d, sp), text)
